@@ -16,6 +16,16 @@ try:
 except Exception as e:
     print('translate decide_start: %s' % e); rc = 1
 try:
+    import py2lean_exits
+    py2lean_exits.gen_exits()
+except Exception as e:
+    print('translate exits: %s' % e); rc = 1
+try:
+    import ccall2lean
+    ccall2lean.gen_callargs()
+except Exception as e:
+    print('translate callargs: %s' % e); rc = 1
+try:
     import cwrap2lean
     _t = cwrap2lean.gen_blas_safety(); cwrap2lean.gen_blas_driver(_t); cwrap2lean.gen_blas_foot(_t)
     cwrap2lean.gen_base_safety()
